@@ -138,8 +138,9 @@ class WrapFS(FS, typing.Generic[_F]):
         with unwrap_errors(path):
             raw_info = _fs.getinfo(_path, namespaces=namespaces).raw
         if abspath(normpath(path)) == "/":
+            # NB: copy the namespace too, the delegate may keep (cache) this info
             raw_info = dict(raw_info)
-            raw_info["basic"]["name"] = ""  # type: ignore
+            raw_info["basic"] = dict(raw_info["basic"], name="")  # type: ignore
         return Info(raw_info)
 
     def listdir(self, path):
